@@ -802,8 +802,14 @@ func (c *ctxT) inlineCall(p *packages.Package, f *ast.File, filename string, src
 		c.notes = append(c.notes, fmt.Sprintf("call of new function %s at %s not inlined: imports or names differ at the call site (%s)", cal.nameKey, c.fset.Position(call.Pos()), lastCapture))
 		return nil, false
 	}
+	// "return h(..)" with matching results: the body is copied as it is, so that each of its
+	// returns stays a return of the caller (rules that look at what is returned where see the same
+	// exits as before the extraction). For a function that defers this is the only form.
+	if e, ok := c.tailInline(p, f, filename, src, stack, call, recv, cal, done); ok {
+		return e, true
+	}
 	if hasDefer(cal.decl) {
-		return c.tailInline(p, f, filename, src, stack, call, recv, cal, done)
+		return nil, false
 	}
 	// arguments must not contain calls to other candidates (handled in a later round) — any nested call text is copied verbatim, fine
 	var argTexts []string
